@@ -4,6 +4,7 @@ open Genq.Codec
 open Genq
 #print axioms C02_fragmentMatches_is_DoesFragmentTypeApply
 #print axioms C02_struct_fields_are_collectFields
+#print axioms C02_struct_fields_are_collectFields_with_spreads
 #print axioms C02_nested_condition_witness
 #print axioms C02_every_carrier_decodes_its_key
 #print axioms C02_lookup_exact
